@@ -376,6 +376,9 @@ struct CommandBuilderOptions {
     verbose: bool,
     close_stdin: bool,
     replace: Option<String>,
+    /// With -I: the -s limit, which the command line has to meet once the line
+    /// has been put in.
+    substituted_max_chars: Option<usize>,
 }
 impl CommandBuilderOptions {
     fn new(
@@ -403,6 +406,7 @@ impl CommandBuilderOptions {
             verbose: false,
             close_stdin: false,
             replace,
+            substituted_max_chars: None,
         })
     }
 }
@@ -451,8 +455,11 @@ impl CommandBuilder<'_> {
                 .collect();
 
             // The limiters were asked before the line was put in: what is handed
-            // to exec must pass the operating system's limits as it is now.
+            // to exec must pass the operating system's limits, and -s, as it is now.
             let mut system_limits = LimiterCollection::new();
+            if let Some(max_chars) = self.options.substituted_max_chars {
+                system_limits.add(MaxCharsCommandSizeLimiter::new(max_chars));
+            }
             system_limits.add(MaxCharsCommandSizeLimiter::new_system(&self.options.env));
             for arg in std::iter::once(entry_point).chain(initial_args.iter().map(|a| a.as_os_str())) {
                 let arg = Argument {
@@ -1156,7 +1163,9 @@ fn do_xargs(args: &[&str]) -> Result<CommandResult, XargsError> {
     if let Some(max_lines) = max_lines {
         limiters.add(MaxLinesCommandSizeLimiter::new(max_lines));
     }
-    if let Some(max_chars) = options.max_chars {
+    // (with -I, -s is a limit on the command line after the line has been put
+    // in, not on the template plus the line)
+    if let (Some(max_chars), None) = (options.max_chars, replace) {
         limiters.add(MaxCharsCommandSizeLimiter::new(max_chars));
     }
     limiters.add(MaxCharsCommandSizeLimiter::new_system(&env));
@@ -1167,6 +1176,7 @@ fn do_xargs(args: &[&str]) -> Result<CommandResult, XargsError> {
         })?;
 
     builder_options.verbose = options.verbose;
+    builder_options.substituted_max_chars = options.max_chars.filter(|_| replace.is_some());
     builder_options.close_stdin = options.arg_file.is_none();
 
     let args_file: Box<dyn Read> = if let Some(path) = &options.arg_file {
